@@ -78,6 +78,12 @@ pub fn path_of<'tcx>(tcx: TyCtxt<'tcx>, did: DefId) -> String {
         return with_no_trimmed_paths!(tcx.def_path_str(did));
     }
     let key = tcx.def_key(did);
+    if matches!(tcx.def_kind(did), DefKind::Ctor(..)) {
+        // constructors are named like the struct / variant they construct
+        if let Some(pidx) = key.parent {
+            return path_of(tcx, DefId { krate: did.krate, index: pidx });
+        }
+    }
     match key.parent {
         None => crate_alias(tcx, did),
         Some(pidx) => {
